@@ -1,8 +1,8 @@
 (** C04 — Send sequencing: gap-free sequences, one commitment per send.
     Only statements; proofs in Proofs/PacketC04.v.  [inv4 P s] = chain name and client names valid, NO CLIENT UNDER
-    THE CHAIN'S OWN NAME (observation O7 — necessary: Refuted/C04_selfclient.v), stored own commitments lie below the
-    counter, every stored counter is well-formed and equals the packet contract's counter.  [ops_noself]: the history
-    contains no governance registration of a client under the own name.  Sends are the SendPacket calls made by the
+    THE CHAIN'S OWN NAME (observation O7 — a premise on the INITIAL state only, necessary: Refuted/C04_selfclient.v; no
+    history can introduce such a client since fix a9e74e1: C04_noself_invariant), stored own commitments lie below the
+    counter, every stored counter is well-formed and equals the packet contract's counter.  Sends are the SendPacket calls made by the
     EVM hook (user transactions [ASend] and sends nested in module->contract callbacks). *)
 From Teleport Require Import Base.Bytes Base.Outcome Base.AList Model.Packet Model.PacketKeys
      Proofs.Packet Proofs.PacketC01 Proofs.PacketC02 Proofs.PacketC04 Proofs.PacketTx Proofs.PacketCb Proofs.PacketKeys Proofs.PacketExamples.
@@ -31,7 +31,7 @@ Print Assumptions C04_send_step_exact.
     counter at the start (1 on a fresh path); the final chain-side counter is n0 + (number of sends) mod 2^64 and the
     packet contract's counter equals it; no commitment (this chain, d, k) exists at or beyond the counter. *)
 Theorem C04_send_gap_free : forall P, real_keys P -> (forall x, sha256 P x <> []) -> forall ops s d,
-  inv4 P s -> ops_noself (st_name s) ops -> valid_name P d = true ->
+  inv4 P s -> valid_name P d = true ->
   inv4 P (run P s ops) /\
   exists l n0 n,
     log (st_app (run P s ops)) = log (st_app s) ++ l /\
@@ -42,6 +42,25 @@ Theorem C04_send_gap_free : forall P, real_keys P -> (forall x, sha256 P x <> []
     (forall k, sget (ckey P (st_name s, d, k)) (run P s ops) <> None -> k < n \/ n = 0).
 Proof. intros P K. exact (send_gap_free P (real_keys_ok P K)). Qed.
 Print Assumptions C04_send_gap_free.
+
+(** "No client under the chain's own name" is an INVARIANT of every history — messages, EVM transactions, client
+    updates, governance client creation (the own name is refused: fix a9e74e1), toggle and upgrade (both need an
+    existing client), relayer registration — with no other hypothesis, also over multi-message transactions; and the
+    client-creating proposal for the own name is refused in every state with the state unchanged.  The only remaining
+    premise of the C04 / C05 theorems about self-named clients is therefore on the INITIAL state (an imported genesis
+    could contain one: client genesis validation does not compare client names with native_chain_name). *)
+Theorem C04_noself_invariant : forall P ops s, noself s -> noself (run P s ops).
+Proof. exact run_noself. Qed.
+Print Assumptions C04_noself_invariant.
+
+Theorem C04_noself_invariant_txs : forall P l s, noself s -> noself (run_txs P s l).
+Proof. exact run_txs_noself. Qed.
+Print Assumptions C04_noself_invariant_txs.
+
+Theorem C04_create_own_name_refused : forall P env s c ok,
+  step P s (env, ARegisterClient (st_name s) c ok) = (s, false).
+Proof. exact create_own_name_refused. Qed.
+Print Assumptions C04_create_own_name_refused.
 
 (** A stored commitment keeps its value (the hash written by the send, see C04_send_step_exact) through every
     operation except an accepted, verified acknowledgement of exactly that packet. *)
